@@ -12,10 +12,10 @@ import (
 
 // modSet: what a statement may modify (syntactic over-approximation)
 type modSet struct {
-	vars   map[types.Object]bool
-	heap   map[string]bool // heap keys
-	ghost  map[string]bool
-	all    bool // unknown callee: all heap + ghost
+	vars       map[types.Object]bool
+	heap       map[string]bool // heap keys
+	ghost      map[string]bool
+	all        bool // unknown callee: all heap + ghost
 	heapPtrAll bool // some *p location: all ptr.* heaps
 }
 
